@@ -1223,6 +1223,7 @@ var UFImpl = map[string]func([]float64) float64{
 	"pow":   func(x []float64) float64 { return math.Pow(x[0], x[1]) },
 	"hypot": func(x []float64) float64 { return math.Hypot(x[0], x[1]) },
 	"floor": func(x []float64) float64 { return math.Floor(x[0]) },
+	"trunc": func(x []float64) float64 { return math.Trunc(x[0]) },
 	"sinh":  func(x []float64) float64 { return math.Sinh(x[0]) },
 	"cosh":  func(x []float64) float64 { return math.Cosh(x[0]) },
 	"mod":   func(x []float64) float64 { return math.Mod(x[0], x[1]) },
